@@ -3,7 +3,6 @@ package bsp
 
 import (
 	"context"
-	"errors"
 	"fmt"
 	"reflect"
 	"sort"
@@ -171,7 +170,6 @@ func (x *exporter) Shutdown(ctx context.Context) error {
 	return err
 }
 
-var errInjected = errors.New("injected exporter error")
 
 // behave plays one tape-chosen exporter behaviour.
 //
@@ -191,7 +189,7 @@ func (w *world) behave(ctx context.Context, what string) error {
 		return nil
 	case 2:
 		w.r.Fault(what + "-error")
-		return errInjected
+		return w.r.Injected()
 	case 3:
 		d := w.delays[w.sim.Draw(len(w.delays))]
 		w.r.Fault(what + "-slow-ignore-ctx")
@@ -216,7 +214,7 @@ func (w *world) behave(ctx context.Context, what string) error {
 		d := w.delays[w.sim.Draw(len(w.delays))]
 		w.r.Fault(what + "-slow-then-error")
 		simrt.Sleep(d, ptExpWait)
-		return errInjected
+		return w.r.Injected()
 	}
 }
 
